@@ -42,7 +42,26 @@ func main() {
 	}
 	cfg := &packages.Config{Mode: packages.NeedName | packages.NeedFiles | packages.NeedSyntax | packages.NeedTypes | packages.NeedTypesInfo | packages.NeedImports | packages.NeedDeps, Dir: *repo, Tests: false,
 		ParseFile: func(fset *token.FileSet, filename string, src []byte) (*ast.File, error) {
-			return parser.ParseFile(fset, filename, src, 0) // no comments: nodes are moved around
+			// only the doc comments of declarations are kept (a rule reads "Deprecated:"): statements are moved around
+			f, err := parser.ParseFile(fset, filename, src, parser.ParseComments)
+			if err != nil {
+				return f, err
+			}
+			var keep []*ast.CommentGroup
+			for _, d := range f.Decls {
+				switch x := d.(type) {
+				case *ast.FuncDecl:
+					if x.Doc != nil {
+						keep = append(keep, x.Doc)
+					}
+				case *ast.GenDecl:
+					if x.Doc != nil {
+						keep = append(keep, x.Doc)
+					}
+				}
+			}
+			f.Comments = keep
+			return f, nil
 		}}
 	pkgs, err := packages.Load(cfg, ".")
 	if err != nil || len(pkgs) != 1 || len(pkgs[0].Errors) > 0 {
@@ -90,6 +109,10 @@ func main() {
 				ret2var(fd, pk.TypesInfo)
 			case "predicate":
 				extra = append(extra, predicate(fd, pk)...)
+			case "rename":
+				rename(fd, pk.TypesInfo, pk.Types)
+			case "range2index":
+				range2index(fd.Body, pk.TypesInfo)
 			default:
 				fmt.Fprintln(os.Stderr, "unknown kind", *kind)
 				os.Exit(2)
@@ -97,7 +120,7 @@ func main() {
 		}
 		dropUnusedImports(f, pk.TypesInfo)
 		var buf bytes.Buffer
-		if err := printer.Fprint(&buf, token.NewFileSet(), f); err != nil {
+		if err := printer.Fprint(&buf, pk.Fset, f); err != nil {
 			fmt.Fprintln(os.Stderr, "print:", err)
 			os.Exit(1)
 		}
@@ -773,4 +796,141 @@ func dropUnusedImports(f *ast.File, info *types.Info) {
 	}
 	f.Decls = decls
 	f.Imports = nil
+}
+
+// rename: every parameter, receiver, named result and local variable of the function gets a neutral name.
+func rename(fd *ast.FuncDecl, info *types.Info, pkg *types.Package) {
+	names := map[types.Object]string{}
+	nameOf := func(o types.Object) string {
+		v, ok := o.(*types.Var)
+		if !ok || v.IsField() || v.Pkg() != pkg || v.Parent() == pkg.Scope() || v.Name() == "_" {
+			return ""
+		}
+		if n, ok := names[o]; ok {
+			return n
+		}
+		counter++
+		names[o] = fmt.Sprintf("zv%d", counter)
+		nSites++
+		return names[o]
+	}
+	ast.Inspect(fd, func(n ast.Node) bool {
+		id, ok := n.(*ast.Ident)
+		if !ok {
+			return true
+		}
+		if o := info.Defs[id]; o != nil {
+			if nn := nameOf(o); nn != "" {
+				id.Name = nn
+			}
+			return true
+		}
+		if o := info.Uses[id]; o != nil {
+			// only variables declared inside this function
+			if o.Pos() >= fd.Pos() && o.Pos() <= fd.End() {
+				if nn := nameOf(o); nn != "" {
+					id.Name = nn
+				}
+			}
+		}
+		return true
+	})
+	// type switch symbols: `switch x := v.(type)` declares x implicitly per clause
+	ast.Inspect(fd, func(n ast.Node) bool {
+		ts, ok := n.(*ast.TypeSwitchStmt)
+		if !ok {
+			return true
+		}
+		as, ok := ts.Assign.(*ast.AssignStmt)
+		if !ok || len(as.Lhs) != 1 {
+			return true
+		}
+		sym := as.Lhs[0].(*ast.Ident)
+		counter++
+		nn := fmt.Sprintf("zv%d", counter)
+		old := sym.Name
+		sym.Name = nn
+		for _, cl := range ts.Body.List {
+			cc := cl.(*ast.CaseClause)
+			if o := info.Implicits[cc]; o != nil {
+				for _, st := range cc.Body {
+					ast.Inspect(st, func(m ast.Node) bool {
+						if id, ok := m.(*ast.Ident); ok && info.Uses[id] == o && id.Name == old {
+							id.Name = nn
+						}
+						return true
+					})
+				}
+			}
+		}
+		return true
+	})
+}
+
+// range2index: for i, v := range s {B}  ->  zs := s; for i := 0; i < len(zs); i++ { v := zs[i]; B }   (slices only)
+func range2index(body *ast.BlockStmt, info *types.Info) {
+	eachList(body, func(list *[]ast.Stmt) {
+		var out []ast.Stmt
+		for _, st := range *list {
+			rs, ok := st.(*ast.RangeStmt)
+			if !ok || rs.Tok != token.DEFINE {
+				out = append(out, st)
+				continue
+			}
+			tv, ok := info.Types[rs.X]
+			if !ok {
+				out = append(out, st)
+				continue
+			}
+			if _, isSlice := tv.Type.Underlying().(*types.Slice); !isSlice {
+				out = append(out, st)
+				continue
+			}
+			counter++
+			zs := ast.NewIdent(fmt.Sprintf("zs%d", counter))
+			idx := ast.NewIdent(fmt.Sprintf("zi%d", counter))
+			if k, ok := rs.Key.(*ast.Ident); ok && k.Name != "_" {
+				idx = ast.NewIdent(k.Name)
+			}
+			var pre []ast.Stmt
+			if v, ok := rs.Value.(*ast.Ident); ok && v.Name != "_" {
+				pre = append(pre, &ast.AssignStmt{Lhs: []ast.Expr{ast.NewIdent(v.Name)}, Tok: token.DEFINE, Rhs: []ast.Expr{&ast.IndexExpr{X: ast.NewIdent(zs.Name), Index: ast.NewIdent(idx.Name)}}})
+				// the value may be unused in the body only if it was `_`; a used-once guarantee is not needed
+			}
+			// the key of a range is a copy per iteration: assignments to it in the body do not affect the iteration
+			assignsKey := false
+			ast.Inspect(rs.Body, func(n ast.Node) bool {
+				switch x := n.(type) {
+				case *ast.AssignStmt:
+					for _, l := range x.Lhs {
+						if id, ok := l.(*ast.Ident); ok && id.Name == idx.Name && x.Tok != token.DEFINE {
+							assignsKey = true
+						}
+					}
+				case *ast.IncDecStmt:
+					if id, ok := x.X.(*ast.Ident); ok && id.Name == idx.Name {
+						assignsKey = true
+					}
+				case *ast.UnaryExpr:
+					if id, ok := x.X.(*ast.Ident); ok && x.Op == token.AND && id.Name == idx.Name {
+						assignsKey = true
+					}
+				}
+				return true
+			})
+			if assignsKey {
+				out = append(out, st)
+				continue
+			}
+			out = append(out, &ast.AssignStmt{Lhs: []ast.Expr{zs}, Tok: token.DEFINE, Rhs: []ast.Expr{rs.X}})
+			out = append(out, &ast.ForStmt{
+				Init: &ast.AssignStmt{Lhs: []ast.Expr{ast.NewIdent(idx.Name)}, Tok: token.DEFINE, Rhs: []ast.Expr{&ast.BasicLit{Kind: token.INT, Value: "0"}}},
+				Cond: &ast.BinaryExpr{X: ast.NewIdent(idx.Name), Op: token.LSS, Y: &ast.CallExpr{Fun: ast.NewIdent("len"), Args: []ast.Expr{ast.NewIdent(zs.Name)}}},
+				Post: &ast.IncDecStmt{X: ast.NewIdent(idx.Name), Tok: token.INC},
+				Body: &ast.BlockStmt{List: append(pre, rs.Body.List...)},
+			})
+			nSites++
+		}
+		*list = out
+	})
 }
